@@ -190,11 +190,51 @@ def make_world(case):
                 out[v] = self._table(k, int(ek[evt_idxs[v]]), x)
             return out
 
-    W.tdms, W.llh, W.eratios, W.swr, W.sob = [], [], [], [], []
+    from skyllh.core.signalpdf import SignalMultiDimGridPDFSet
+
+    class SigSet(SignalMultiDimGridPDFSet):
+        """the real SignalMultiDimGridPDFSet (get_pd, incl. the mapping of the interpolation
+        gradients to fit parameter ids, is the code under test); only the constructor (which
+        needs a set of MultiDimGridPDF objects) and the PDF lookup behind the grid are replaced"""
+        def __init__(self, pname, method_cls, table):
+            self._cfg = cfg
+            self._pmm = W.pmm
+            self._param_set = type('PSet', (), {'params_name_list': [pname]})()
+            grid = ParameterGrid(pname, np.round(np.arange(-1.0, 6.0001, 0.25), 6))
+            pgs = ParameterGridSet([grid])
+            self._param_grid_set = pgs
+            self._interpol_method = method_cls(func=self._table_pd, param_grid_set=pgs)
+            self._interpol_param_names = pgs.params_name_list
+            self._cache_eventdata = None
+            self._table = table
+
+        @property
+        def axes(self):
+            return None
+
+        def initialize_for_new_trial(self, tdm, tl=None, **kw):
+            self._cache_eventdata = np.vstack([tdm['ek']])
+
+        def assert_is_valid_for_trial_data(self, tdm, tl=None, **kw):
+            pass
+
+        def _table_pd(self, tdm, eventdata, gridparams_recarray, n_values, **kw):
+            (src_idxs, evt_idxs) = tdm.src_evt_idxs
+            ek = eventdata[0]
+            xs = gridparams_recarray[self._interpol_param_names[0]]
+            out = np.empty(n_values, dtype=np.float64)
+            for v in range(n_values):
+                k = int(src_idxs[v])
+                x = float(xs[0] if len(xs) == 1 else xs[k])
+                out[v] = math.exp(self._table(k, int(ek[evt_idxs[v]]), x))
+            return out
+
+    W.tdms, W.llh, W.eratios, W.swr, W.sob, W.sigsets = [], [], [], [], [], []
     for j, ds in enumerate(case['datasets']):
         n_raw = ds['n_raw']
         ev = DataFieldRecordArray(np.array(
-            [(i, ds['bkg'][i]) for i in range(n_raw)], dtype=[('ek', np.int64), ('bkg', np.float64)]))
+            [(i, ds['bkg'][i], 0.5 + 0.25 * ((i * 7) % 5)) for i in range(n_raw)],
+            dtype=[('ek', np.int64), ('bkg', np.float64), ('bkg2', np.float64)]))
         tdm = TrialDataManager()
         tdm.initialize_trial(shg_mgr=W.shg_mgr, pmm=W.pmm, events=ev, n_events=ds['N'],
                              evt_sel_method=Sel(ds['keep'], ds['pairs']))
@@ -204,11 +244,22 @@ def make_world(case):
         sob = SigOverBkgPDFRatio(sig_pdf=sig, bkg_pdf=bkg, same_axes=False, zero_bkg_ratio_value=ds.get('zero_bkg', 1.0), cfg=cfg)
         ers = []
         ratio = sob
-        for (pn, meth, seed) in ds['eratios']:
+        sgs = []
+        for ent in ds['eratios']:
+            (pn, meth, seed) = ent[:3]
+            kind = ent[3] if len(ent) > 3 else 'i3'
             mcls = Linear1DGridManifoldInterpolationMethod if meth == 'linear' else Parabola1DGridManifoldInterpolationMethod
-            er = EnergyRatio(local_name(pn), mcls, TableFunc(seed), None)
-            ers.append(er)
+            if kind == 'sigset':
+                sg = SigSet(local_name(pn), mcls, TableFunc(seed))
+                sg.initialize_for_new_trial(tdm)
+                sgs.append(sg)
+                bkg2 = BkgPDF('bkg2')
+                er = SigOverBkgPDFRatio(sig_pdf=sg, bkg_pdf=bkg2, same_axes=False, cfg=cfg)
+            else:
+                er = EnergyRatio(local_name(pn), mcls, TableFunc(seed), None)
+                ers.append(er)
             ratio = PDFRatioProduct(ratio, er, cfg=cfg)
+        W.sigsets.append(sgs)
         swr = SourceWeightedPDFRatio(dataset_idx=j, src_detsigyield_weights_service=W.a_service, pdfratio=ratio, cfg=cfg)
         llh = ZeroSigH0SingleDatasetTCLLHRatio(pmm=W.pmm, minimizer=minimizer, shg_mgr=W.shg_mgr, tdm=tdm,
                                                pdfratio=swr, cfg=cfg)
